@@ -65,9 +65,9 @@ CASES = [
     dict(name='utf8_range', cxx='utf8::range< 0x80, 0x10ffff >', eats='', alphabet=U8, quick=1),
     dict(name='utf8_ranges', cxx='utf8::ranges< 0x9, 0xd, 0x80, 0x7ff >', eats='\n\r', alphabet=U8),
     dict(name='utf8_string', cxx="utf8::string< 0xe4, '\\n' >", eats='\n', alphabet=U8),
-    dict(name='eol', cxx='eol', eats='\n\r', d12=D12_AT_S, quick=1),
-    dict(name='eolf', cxx='eolf', eats='\n\r', d12=D12_AT_S, quick=1),
-    dict(name='until_eol', cxx='until< eol >', eats='\n\r', d12=D12_FIRST_CR, helpers=H_FIRST_CR, quick=1),
+    dict(name='eol', allpol=1, cxx='eol', eats='\n\r', d12=D12_AT_S, quick=1),
+    dict(name='eolf', allpol=1, cxx='eolf', eats='\n\r', d12=D12_AT_S, quick=1),
+    dict(name='until_eol', allpol=1, cxx='until< eol >', eats='\n\r', d12=D12_FIRST_CR, helpers=H_FIRST_CR, quick=1),
     dict(name='until_eol_any', cxx='until< eol, any >', eats='\n\r', d12=D12_FIRST_CR, helpers=H_FIRST_CR),
     dict(name='rep_one_lf', cxx="rep_one_min_max< 1, 3, '\\n' >", eats='\n', includes=['tao/pegtl/contrib/rep_one_min_max.hpp'], quick=1),
     dict(name='rep_one_a', cxx="rep_one_min_max< 0, 2, 'a' >", eats='', can_fail=1, includes=['tao/pegtl/contrib/rep_one_min_max.hpp']),
@@ -139,9 +139,9 @@ def plan(ctx):
             text = text.replace('#include "c06_harness.h"', '#define C06_HELPERS "c06_helpers_%s.h"\n#include "c06_harness.h"' % c['name'])
         h = ctx.write('c06_%s.c' % c['name'], text)
         for pol, ch in POLICIES:
-            if ctx.quick() and not c.get('d12') and pol not in ('lf_crlf', 'cr_crlf'):
-                # quick tier: rules that do not involve the eol rule only see Eol::ch; one policy per line-counting character
-                # ('\n': lf, crlf, lf_crlf; '\r': cr, cr_crlf); the thorough tier runs all five
+            if ctx.quick() and not c.get('allpol') and pol not in ('lf_crlf', 'cr_crlf'):
+                # quick tier: only eol, eolf and until< eol > (the policy-specific eol_match code) run under all five policies; every other
+                # rule sees just Eol::ch, one policy per line-counting character ('\n': lf_crlf, '\r': cr_crlf); the thorough tier runs all five
                 continue
             cd = {'VF_SPLIT': 1, 'V_' + pol: 1}
             bounds = {'bytes': n, 'rule': c['cxx'], 'policy': 'eol::' + pol, 'tracking': ['eager', 'lazy'], 'rewind_mode': mode,
